@@ -366,14 +366,26 @@ func (w *World) genWithdrawStep(r *Rand, sub uint64, forged *VoteOpt) (Step, boo
 	case forged == nil && len(canceling) > 0 && r.Chance(0.5):
 		n := 1 + r.Intn(minInt(len(canceling), 4))
 		return mkStep("rel.withdraw", withdrawArgs{Action: "approve", IDs: canceling[:n]}, sub), true
-	case len(replaceable) > 0 && r.Chance(0.25):
+	case len(replaceable) > 0 && r.Chance(0.35):
 		return mkStep("rel.withdraw", withdrawArgs{Action: "replace", Payout: pick(r, replaceable), Change: r.Chance(0.5), Vote: vote}, sub), true
 	case forged == nil && len(unmined) > 0 && r.Chance(0.6):
 		cand := -1
 		if r.Chance(0.3) {
 			cand = 0
 		}
-		return mkStep("rel.withdraw", withdrawArgs{Action: "mine", Payout: pick(r, unmined), Cand: cand}, sub), true
+		pi := pick(r, unmined)
+		// prefer payouts with several fee-bumped candidates, and let a middle one confirm
+		for _, j := range unmined {
+			if len(w.Btc.Payouts[j].Txs) >= 3 && r.Chance(0.7) {
+				pi = j
+				break
+			}
+		}
+		if n := len(w.Btc.Payouts[pi].Txs); n >= 3 && r.Chance(0.6) {
+			cand = 1 + r.Intn(n-2)
+			w.probe("rbf-middle-candidate-chosen")
+		}
+		return mkStep("rel.withdraw", withdrawArgs{Action: "mine", Payout: pi, Cand: cand}, sub), true
 	case len(pending)+len(canceling) > 0:
 		pool := append(append([]uint64{}, pending...), canceling...)
 		n := 1 + r.Intn(minInt(len(pool), 6))
